@@ -59,6 +59,66 @@ Theorem C14_inplace_restart_refuted :
 Proof. exact inplace_restart_refuted. Qed.
 Print Assumptions C14_inplace_restart_refuted.
 
+(* Field-level round trip, about the FIELD MAPS generated from the dump / load functions (Gen/DumpKeys.v:
+   which attribute is stored under which key, which key is read into which attribute through which
+   conversion, version dispatch followed for the written version).  For every object kind of the property
+   (chain state, density operator, tree state), every payload type P (tensors, label arrays, qntot and
+   the prefactor are opaque), every number of sites: load (dump m) succeeds and returns the same
+   tensors, the same label array per bond / node, and the same value of every attribute the loader
+   sets (Mps/MpDm: qnidx, qntot, to_right, coeff; TTNS: coeff).  [wf] = the object has one label array
+   per bond (n+1) resp. per node (n), and each attribute has the type its conversion expects
+   (conv_apply c v = Some v: int() of an int, bool() of a bool, astype(int) of an integer array, ...). *)
+Theorem C14_fields_roundtrip :
+  forall kind dm lm loff, In (kind, dm, lm, loff) field_kinds ->
+  forall (P : Type) (dflt : string -> value P) (m : obj P), wf P lm loff m ->
+  exists m', load lm dflt (dump dm m) = Some m' /\
+    o_tensors m' = o_tensors m /\ o_labels m' = o_labels m /\
+    forall a, In a (scalar_attrs lm) -> o_scalar m' a = o_scalar m a.
+Proof. exact fields_roundtrip_gen. Qed.
+Print Assumptions C14_fields_roundtrip.
+
+(* Side files (<job>_mps.npz with dump_mps="one", <job>_mps_<step>.npz with "all"): what IS guaranteed.
+   After ANY history, a dump that is not killed leaves the side file holding the state of that very dump.
+   Nothing more: C14_restart_safe / C14_single_run_safe speak about <job>.npz / <job>.npz.bak only, and
+   Props/C14Limits.v shows that a crash can leave the side file unloadable with no older copy. *)
+Theorem C14_side_file_current_after_return :
+  forall name proto ps, In (name, proto, ps) side_files ->
+  forall (h : list attempt) p, In p ps ->
+    let st := run_history proto h (init_state npaths) in
+    cell_at Absent (h_fs (step_attempt proto st None)) p = Complete (h_next st).
+Proof. exact side_file_current_after_return_gen. Qed.
+Print Assumptions C14_side_file_current_after_return.
+
+(* Spill of large site tensors to disk (hand-written model of _array2mt / __setitem__ / __getitem__ in
+   Model/DumpProto.v, tied by correspondence): what was stored is what is read back, spilled or not;
+   the other sites are untouched; the bookkeeping invariant (a slot that is a file name names its own
+   existing file, every file belongs to the slot of its number) is preserved; a store that ends in
+   memory leaves no file of that site behind. *)
+Theorem C14_spill_roundtrip :
+  forall (P : Type) (nbytes : P -> nat) limit key a (st : sstate P),
+  key < List.length (s_slots st) -> getitem key (setitem nbytes limit key a st) = Some a.
+Proof. exact spill_roundtrip_gen. Qed.
+Print Assumptions C14_spill_roundtrip.
+
+Theorem C14_spill_other_sites :
+  forall (P : Type) (nbytes : P -> nat) limit key a (st : sstate P) j,
+  spill_inv st -> j <> key -> getitem j (setitem nbytes limit key a st) = getitem j st.
+Proof. exact spill_other_sites_gen. Qed.
+Print Assumptions C14_spill_other_sites.
+
+Theorem C14_spill_inv_preserved :
+  forall (P : Type) (nbytes : P -> nat) limit key a (st : sstate P),
+  key < List.length (s_slots st) -> spill_inv st -> spill_inv (setitem nbytes limit key a st).
+Proof. exact spill_inv_preserved. Qed.
+Print Assumptions C14_spill_inv_preserved.
+
+Theorem C14_spill_no_orphan :
+  forall (P : Type) (nbytes : P -> nat) limit key a (st : sstate P),
+  key < List.length (s_slots st) -> spill_inv st -> nbytes a <= limit ->
+  s_disk (setitem nbytes limit key a st) key = None.
+Proof. exact spill_no_orphan_gen. Qed.
+Print Assumptions C14_spill_no_orphan.
+
 (* ---- non-vacuity ---- *)
 
 (* three protocols are generated (dump_mps = None / "one" / "all"), four object kinds *)
@@ -90,3 +150,25 @@ Example C14_keys_example :
   In (KIdx "mt_" 2) (keys 3 written_mps) /\ In (KIdx "subqn_" 3) (keys 3 written_mps) /\
   read_mps <> None.
 Proof. vm_compute. repeat split; auto 20. discriminate. Qed.
+
+(* the field theorem speaks about exactly these attributes; and a concrete well-formed 2-site chain state
+   (payloads = numbers) really comes back *)
+Example C14_fields_nonvacuous :
+  scalar_attrs lmap_mps = ["qnidx"; "qntot"; "to_right"; "coeff"]%string /\
+  scalar_attrs lmap_ttns = ["coeff"]%string /\
+  let m := mk_obj [10; 11] [20; 21; 22]
+             (fun a => if String.eqb a "qnidx" then VNat 1 else if String.eqb a "to_right" then VBool true
+                       else if String.eqb a "qntot" then VPay 7 else VPay 9) in
+  match load lmap_mps (fun _ => VStr "") (dump dmap_mps m) with
+  | Some m' => o_tensors m' = [10; 11] /\ o_labels m' = [20; 21; 22] /\ o_scalar m' "qnidx"%string = VNat 1
+               /\ o_scalar m' "to_right"%string = VBool true /\ o_scalar m' "coeff"%string = VPay 9
+  | None => False
+  end.
+Proof. vm_compute. repeat split; reflexivity. Qed.
+
+(* spill: the all-in-memory state satisfies the invariant; a 3-store program on 2 sites with limit 100 *)
+Example C14_spill_nonvacuous :
+  let st0 := mk_sstate [InMem 5; InMem 6] (fun _ => None) in
+  let st := setitem (fun p => p) 100 0 7 (setitem (fun p => p) 100 1 300 (setitem (fun p => p) 100 0 200 st0)) in
+  files_on_disk st = [1] /\ getitem 0 st = Some 7 /\ getitem 1 st = Some 300.
+Proof. vm_compute. repeat split; reflexivity. Qed.
